@@ -15,7 +15,8 @@
 //! (results, remaining(), initialized(), owner length / contents, memory) into the
 //! vocabulary of Buffer.tla. A panic is an outcome {"r":"panic"}.
 use arrayvec::ArrayVec;
-use libtw2_buffer::{with_buffer, Buffer, BufferRef, ReadBuffer, ReadBufferRef};
+use libtw2_buffer::{with_buffer, Buffer, BufferRef, ReadBuffer, ReadBufferMarker, ReadBufferRef, ToBufferRef};
+use libtw2_packer::{with_packer, Packer};
 use rand::rngs::StdRng;
 use rand::{Rng, SeedableRng};
 use serde_json::{json, Value};
@@ -29,16 +30,21 @@ use std::sync::atomic::{AtomicBool, AtomicUsize, Ordering};
 #[derive(Clone, Debug)]
 enum Op {
     Setup { kind: String, cap: usize, len0: usize, mem0: Vec<u8> },
-    Open { ks: Vec<usize> },
+    Open { ks: Vec<usize>, via: u8 },
     Write { bs: Vec<u8> },
+    Pk { op: u8, v: i64, bs: Vec<u8> },
+    Reopen,
+    RawDirty { n: usize },
+    User { who: u8, bs: Vec<u8>, ks: Vec<usize>, ret: bool },
+    Grow { cap: usize, tail: Vec<u8> },
     Extend { bs: Vec<u8>, it: u8 },
     Advance { bs: Vec<u8> },
     Scribble { bs: Vec<u8> },
     Close,
     CloseInit,
     Unwind,
-    Read { bs: Vec<u8>, ks: Vec<usize> },
-    ReadClose { bs: Vec<u8>, claim: usize },
+    Read { bs: Vec<u8>, ks: Vec<usize>, rd: Rd },
+    ReadClose { bs: Vec<u8>, claim: usize, rd: Rd },
     OverAdvance { n: usize },
     Touch { ks: Vec<usize> },
     Final,
@@ -49,6 +55,40 @@ fn bytes_of(v: &Value) -> Vec<u8> {
 }
 fn usizes_of(v: &Value) -> Vec<usize> {
     v.as_array().map(|a| a.iter().map(|x| x.as_u64().unwrap_or(0) as usize).collect()).unwrap_or_default()
+}
+
+/// How a view is created: with_buffer (raw owner: BufferRef::new), by hand, with_packer.
+const VIA_NAMES: [&str; 3] = ["with", "manual", "packer"];
+fn via_code(s: &str) -> u8 {
+    VIA_NAMES.iter().position(|x| *x == s).unwrap_or_else(|| panic!("harness: unknown via {}", s)) as u8
+}
+/// Call sites of the buffer crate inside libtw2.
+const WHO_NAMES: [&str; 4] = ["huffd", "huffc", "strbytes", "feed"];
+fn who_code(s: &str) -> u8 {
+    WHO_NAMES.iter().position(|x| *x == s).unwrap_or_else(|| panic!("harness: unknown call site {}", s)) as u8
+}
+const PK_NAMES: [&str; 5] = ["raw", "rest", "string", "int", "data"];
+fn pk_code(s: &str) -> u8 {
+    PK_NAMES.iter().position(|x| *x == s).unwrap_or_else(|| panic!("harness: unknown packer op {}", s)) as u8
+}
+/// The reader handed to read_buffer / read_buffer_ref.
+const RD_NAMES: [&str; 11] = ["slice", "mutref", "boxed", "bufreader", "file", "empty", "repeat", "take", "short", "chain", "err"];
+#[derive(Clone, Debug, Default)]
+struct Rd {
+    k: u8,
+    j: usize,
+    bs2: Vec<u8>,
+}
+fn rd_of(v: &Value) -> Rd {
+    if v.is_null() {
+        return Rd::default();
+    }
+    let name = v["k"].as_str().unwrap_or("slice");
+    let k = RD_NAMES.iter().position(|x| *x == name).unwrap_or_else(|| panic!("harness: unknown reader {}", name)) as u8;
+    Rd { k, j: v["j"].as_u64().unwrap_or(0) as usize, bs2: bytes_of(&v["bs2"]) }
+}
+fn rd_json(rd: &Rd) -> Value {
+    json!({"k": RD_NAMES[rd.k as usize], "j": rd.j, "bs2": rd.bs2})
 }
 
 /// What the iterator handed to `extend` claims about its length.
@@ -79,7 +119,17 @@ fn parse_op(a: &Value) -> Op {
             len0: a["len0"].as_u64().unwrap_or(0) as usize,
             mem0: bytes_of(&a["mem0"]),
         },
-        "open" => Op::Open { ks: usizes_of(&a["ks"]) },
+        "open" => Op::Open { ks: usizes_of(&a["ks"]), via: via_code(a["via"].as_str().unwrap_or("with")) },
+        "pk" => Op::Pk { op: pk_code(a["op"].as_str().unwrap_or("")), v: a["v"].as_i64().unwrap_or(0), bs: bytes_of(&a["bs"]) },
+        "reopen" => Op::Reopen,
+        "rawdirty" => Op::RawDirty { n: a["n"].as_u64().unwrap_or(0) as usize },
+        "user" => Op::User {
+            who: who_code(a["who"].as_str().unwrap_or("")),
+            bs: bytes_of(&a["bs"]),
+            ks: usizes_of(&a["ks"]),
+            ret: a["ret"].as_bool().unwrap_or(true),
+        },
+        "grow" => Op::Grow { cap: a["cap"].as_u64().unwrap_or(0) as usize, tail: bytes_of(&a["tail"]) },
         "write" => Op::Write { bs: bytes_of(&a["bs"]) },
         "extend" => Op::Extend { bs: bytes_of(&a["bs"]), it: it_code(a["it"].as_str().unwrap_or("exact")) },
         "advance" => Op::Advance { bs: bytes_of(&a["bs"]) },
@@ -87,8 +137,8 @@ fn parse_op(a: &Value) -> Op {
         "close" => Op::Close,
         "closeinit" => Op::CloseInit,
         "unwind" => Op::Unwind,
-        "read" => Op::Read { bs: bytes_of(&a["bs"]), ks: usizes_of(&a["ks"]) },
-        "readclose" => Op::ReadClose { bs: bytes_of(&a["bs"]), claim: a["claim"].as_u64().unwrap_or(0) as usize },
+        "read" => Op::Read { bs: bytes_of(&a["bs"]), ks: usizes_of(&a["ks"]), rd: rd_of(&a["rd"]) },
+        "readclose" => Op::ReadClose { bs: bytes_of(&a["bs"]), claim: a["claim"].as_u64().unwrap_or(0) as usize, rd: rd_of(&a["rd"]) },
         "overadvance" => Op::OverAdvance { n: a["n"].as_u64().unwrap_or(0) as usize },
         "touch" => Op::Touch { ks: usizes_of(&a["ks"]) },
         "final" => Op::Final,
@@ -99,7 +149,12 @@ fn parse_op(a: &Value) -> Op {
 fn act_of(op: &Op) -> Value {
     match op {
         Op::Setup { kind, cap, len0, mem0 } => json!({"a":"setup","kind":kind,"cap":cap,"len0":len0,"mem0":mem0}),
-        Op::Open { ks } => json!({"a":"open","ks":ks}),
+        Op::Open { ks, via } => json!({"a":"open","ks":ks,"via":VIA_NAMES[*via as usize]}),
+        Op::Pk { op, v, bs } => json!({"a":"pk","op":PK_NAMES[*op as usize],"v":v,"bs":bs}),
+        Op::Reopen => json!({"a":"reopen"}),
+        Op::RawDirty { n } => json!({"a":"rawdirty","n":n}),
+        Op::User { who, bs, ks, ret } => json!({"a":"user","who":WHO_NAMES[*who as usize],"bs":bs,"ks":ks,"ret":ret}),
+        Op::Grow { cap, tail } => json!({"a":"grow","cap":cap,"tail":tail}),
         Op::Write { bs } => json!({"a":"write","bs":bs}),
         Op::Extend { bs, it } => json!({"a":"extend","bs":bs,"it":IT_NAMES[*it as usize]}),
         Op::Advance { bs } => json!({"a":"advance","bs":bs}),
@@ -107,8 +162,8 @@ fn act_of(op: &Op) -> Value {
         Op::Close => json!({"a":"close"}),
         Op::CloseInit => json!({"a":"closeinit"}),
         Op::Unwind => json!({"a":"unwind"}),
-        Op::Read { bs, ks } => json!({"a":"read","bs":bs,"ks":ks}),
-        Op::ReadClose { bs, claim } => json!({"a":"readclose","bs":bs,"claim":claim}),
+        Op::Read { bs, ks, rd } => json!({"a":"read","bs":bs,"ks":ks,"rd":rd_json(rd)}),
+        Op::ReadClose { bs, claim, rd } => json!({"a":"readclose","bs":bs,"claim":claim,"rd":rd_json(rd)}),
         Op::OverAdvance { n } => json!({"a":"overadvance","n":n}),
         Op::Touch { ks } => json!({"a":"touch","ks":ks}),
         Op::Final => json!({"a":"final"}),
@@ -121,11 +176,15 @@ struct RandCfg {
     maxcap: usize,
     ops: usize,
     maxdepth: usize,
+    /// readers over real files
+    files: bool,
+    /// Connection::feed on owners with at least 1400 bytes of spare capacity
+    feed: bool,
 }
 
 enum Source {
     Plan(Vec<Op>, usize),
-    Random { rng: StdRng, cfg: RandCfg, left: usize, started: bool },
+    Random { rng: StdRng, cfg: RandCfg, left: usize, started: bool, kind: String },
 }
 
 const ARRAY_CAPS: &[usize] = &[0, 1, 2, 3, 4, 5, 6, 7, 8, 16, 32, 64, 128, 256, 512, 1024, 2048, 4096, 8192, 16384];
@@ -144,6 +203,9 @@ fn rand_len(rng: &mut StdRng, rem: usize, over: bool) -> usize {
 fn rand_bytes(rng: &mut StdRng, n: usize) -> Vec<u8> {
     (0..n).map(|_| rng.gen()).collect()
 }
+fn rand_nonzero(rng: &mut StdRng, n: usize) -> Vec<u8> {
+    (0..n).map(|_| rng.gen_range(1..=255u8)).collect()
+}
 fn rand_chain(rng: &mut StdRng, spare: usize) -> Vec<usize> {
     let n = match rng.gen_range(0..10) {
         0..=4 => 0,
@@ -160,20 +222,96 @@ fn rand_chain(rng: &mut StdRng, spare: usize) -> Vec<usize> {
         })
         .collect()
 }
+fn rand_via(rng: &mut StdRng) -> u8 {
+    match rng.gen_range(0..10) {
+        0..=5 => 0,
+        6 | 7 => 1,
+        _ => 2,
+    }
+}
+/// a reader and the bytes it holds; `files`: real files allowed (slow)
+fn rand_reader(rng: &mut StdRng, rem: usize, files: bool) -> (Rd, Vec<u8>) {
+    let n = rand_len(rng, rem, true);
+    let k = match rng.gen_range(0..16) {
+        0..=4 => 0u8,
+        x => ((x - 4) as u8).min(10),
+    };
+    let name = RD_NAMES[k as usize];
+    if name == "file" && !files {
+        return (Rd::default(), rand_bytes(rng, n));
+    }
+    let j = match name {
+        "repeat" => rng.gen_range(0..256),
+        "bufreader" => rng.gen_range(0..=rem + 2).min(64),
+        "take" | "short" | "err" => rand_len(rng, n.min(rem), true),
+        _ => 0,
+    };
+    let bs = match name {
+        "empty" | "repeat" => Vec::new(),
+        "chain" if rng.gen_range(0..3) == 0 => Vec::new(),
+        _ => rand_bytes(rng, n),
+    };
+    let bs2 = if name == "chain" { let m = rand_len(rng, rem, true); rand_bytes(rng, m) } else { Vec::new() };
+    (Rd { k, j, bs2 }, bs)
+}
+/// a call site inside libtw2 and the bytes it is to write
+fn rand_user(rng: &mut StdRng, rem: usize) -> (u8, Vec<u8>) {
+    let who = rng.gen_range(0..3u8);
+    let n = rand_len(rng, rem, true).min(4000);
+    let bs = match WHO_NAMES[who as usize] {
+        "strbytes" => {
+            let mut s = rand_nonzero(rng, n.saturating_sub(1));
+            s.push(0);
+            s
+        }
+        // bytes that compress well and bytes that do not
+        _ if rng.gen_range(0..2) == 0 => (0..n).map(|_| [0u8, 0, 0, 1, 255][rng.gen_range(0..5)]).collect(),
+        _ => rand_bytes(rng, n),
+    };
+    (who, bs)
+}
+fn rand_pk(rng: &mut StdRng, rem: usize) -> Op {
+    let op = rng.gen_range(0..5u8);
+    match PK_NAMES[op as usize] {
+        "int" => {
+            let v: i64 = match rng.gen_range(0..6) {
+                0 => rng.gen_range(-64..64),
+                1 => [63, 64, -64, -65, 8191, 8192, i32::MAX as i64, i32::MIN as i64][rng.gen_range(0..8)],
+                2 => rng.gen_range(-(1i64 << 20)..(1i64 << 20)),
+                _ => rng.gen::<i32>() as i64,
+            };
+            Op::Pk { op, v, bs: Vec::new() }
+        }
+        "string" => {
+            let n = rand_len(rng, rem, true);
+            let mut s = rand_nonzero(rng, n.saturating_sub(1));
+            s.push(0);
+            Op::Pk { op, v: 0, bs: s }
+        }
+        "data" => {
+            let n = rand_len(rng, rem, true);
+            Op::Pk { op, v: n as i64, bs: rand_bytes(rng, n) }
+        }
+        _ => {
+            let n = rand_len(rng, rem, true);
+            Op::Pk { op, v: 0, bs: rand_bytes(rng, n) }
+        }
+    }
+}
 
 impl Source {
-    /// Next operation. `view`: None at top level, Some((remaining, depth)) inside a view.
-    fn next(&mut self, view: Option<(usize, usize)>, owner_spare: usize) -> Option<Op> {
+    /// Next operation. `view`: None at top level, Some((remaining, depth, it is a Packer, made by hand)) inside a view.
+    fn next(&mut self, view: Option<(usize, usize, bool, bool)>, owner_spare: usize) -> Option<Op> {
         match self {
             Source::Plan(ops, i) => {
                 let r = ops.get(*i).cloned();
                 *i += 1;
                 r
             }
-            Source::Random { rng, cfg, left, started } => {
+            Source::Random { rng, cfg, left, started, kind } => {
                 if !*started {
                     *started = true;
-                    let kind = ["vec", "arrayvec", "slice", "sliceref"][rng.gen_range(0..4)].to_string();
+                    *kind = ["vec", "arrayvec", "slice", "sliceref", "raw"][rng.gen_range(0..5)].to_string();
                     let cap = if kind == "arrayvec" {
                         let c: Vec<usize> = ARRAY_CAPS.iter().cloned().filter(|c| *c <= cfg.maxcap).collect();
                         c[rng.gen_range(0..c.len())]
@@ -182,49 +320,89 @@ impl Source {
                     } else {
                         rng.gen_range(0..=cfg.maxcap)
                     };
-                    let len0 = if rng.gen_range(0..3) == 0 { 0 } else { rng.gen_range(0..=cap.min(40)) };
+                    let len0 = match rng.gen_range(0..6) {
+                        0 | 1 => 0,
+                        2 => cap,
+                        _ => rng.gen_range(0..=cap.min(40)),
+                    };
                     let mem0 = rand_bytes(rng, cap);
-                    return Some(Op::Setup { kind, cap, len0, mem0 });
+                    return Some(Op::Setup { kind: kind.clone(), cap, len0, mem0 });
                 }
+                let raw = kind == "raw";
                 match view {
                     None => {
                         if *left == 0 {
                             return Some(Op::Final);
                         }
                         *left -= 1;
-                        let ks = rand_chain(rng, owner_spare);
-                        if rng.gen_range(0..12) == 0 {
-                            return Some(Op::Touch { ks });
-                        }
-                        if rng.gen_range(0..5) == 0 {
-                            let n = rand_len(rng, owner_spare, true);
-                            Some(Op::Read { bs: rand_bytes(rng, n), ks })
-                        } else {
-                            Some(Op::Open { ks })
+                        let ks = if raw { Vec::new() } else { rand_chain(rng, owner_spare) };
+                        match rng.gen_range(0..24) {
+                            0 | 1 if !raw => Some(Op::Touch { ks }),
+                            0 | 1 if owner_spare > 0 => Some(Op::RawDirty { n: rng.gen_range(1..=owner_spare) }),
+                            2..=5 => {
+                                let (rd, bs) = rand_reader(rng, owner_spare, cfg.files);
+                                Some(Op::Read { bs, ks, rd })
+                            }
+                            6..=8 if !raw => {
+                                if cfg.feed && owner_spare >= 1400 && rng.gen_range(0..2) == 0 {
+                                    // a packet whose payload fits, an uncompressed one, or one whose payload overflows the buffer
+                                    let bs: Vec<u8> = match rng.gen_range(0..6) {
+                                        0 => Vec::new(),
+                                        1 => vec![0u8; owner_spare + rng.gen_range(0..40)],
+                                        _ => { let n = rng.gen_range(1..=1390); if rng.gen_range(0..2) == 0 { rand_bytes(rng, n.min(600)) } else { (0..n).map(|_| [0u8, 0, 0, 1, 255][rng.gen_range(0..5)]).collect() } }
+                                    };
+                                    let ks = if rng.gen_range(0..3) == 0 { vec![rng.gen_range(1400..=owner_spare)] } else { Vec::new() };
+                                    Some(Op::User { who: FEED, bs, ks, ret: false })
+                                } else {
+                                    let (who, bs) = rand_user(rng, owner_spare);
+                                    Some(Op::User { who, bs, ks, ret: true })
+                                }
+                            }
+                            9 if kind == "vec" => {
+                                let add = rng.gen_range(1..=16usize);
+                                // capacity now = length + spare
+                                Some(Op::Grow { cap: usize::MAX, tail: rand_bytes(rng, owner_spare + add) })
+                            }
+                            _ => Some(Op::Open { ks, via: if raw { 0 } else { rand_via(rng) } }),
                         }
                     }
-                    Some((rem, depth)) => {
+                    Some((rem, depth, packer, manual)) => {
                         if *left == 0 {
                             return Some(Op::Close);
                         }
                         *left -= 1;
                         let _ = cfg.ops;
-                        Some(match rng.gen_range(0..20) {
+                        if packer {
+                            return Some(match rng.gen_range(0..20) {
+                                0..=8 => rand_pk(rng, rem),
+                                9 | 10 if depth < cfg.maxdepth => Op::Open { ks: rand_chain(rng, rem), via: rand_via(rng) },
+                                11 => { let (rd, bs) = rand_reader(rng, rem, cfg.files); Op::Read { bs, ks: rand_chain(rng, rem), rd } }
+                                12 | 13 => { let (who, bs) = rand_user(rng, rem); Op::User { who, bs, ks: rand_chain(rng, rem), ret: true } }
+                                14 => Op::Touch { ks: rand_chain(rng, rem) },
+                                15 => Op::Unwind,
+                                16 | 17 => Op::CloseInit,
+                                18 => Op::Close,
+                                _ => rand_pk(rng, rem),
+                            });
+                        }
+                        Some(match rng.gen_range(0..24) {
                             0..=4 => Op::Write { bs: { let n = rand_len(rng, rem, true); rand_bytes(rng, n) } },
                             5..=7 => Op::Extend { bs: { let n = rand_len(rng, rem, true); rand_bytes(rng, n) }, it: rng.gen_range(0..4) },
                             8 | 9 => Op::Advance { bs: { let n = rand_len(rng, rem, false).min(rem); rand_bytes(rng, n) } },
                             10 => Op::Scribble { bs: { let n = rand_len(rng, rem, false).min(rem); rand_bytes(rng, n) } },
-                            11..=13 if depth < cfg.maxdepth => Op::Open { ks: rand_chain(rng, rem) },
-                            15 => Op::ReadClose { bs: { let n = rand_len(rng, rem, true).max(1); rand_bytes(rng, n) }, claim: 0 },
-                            14 => Op::Read { bs: { let n = rand_len(rng, rem, true); rand_bytes(rng, n) }, ks: rand_chain(rng, rem) },
+                            11..=13 if depth < cfg.maxdepth => Op::Open { ks: rand_chain(rng, rem), via: rand_via(rng) },
+                            15 => { let (rd, mut bs) = rand_reader(rng, rem, cfg.files); if bs.is_empty() && rd.k == 0 { bs = rand_bytes(rng, 1); } Op::ReadClose { bs, claim: 0, rd } }
+                            14 => { let (rd, bs) = rand_reader(rng, rem, cfg.files); Op::Read { bs, ks: rand_chain(rng, rem), rd } }
                             16 => Op::CloseInit,
                             17 => match rng.gen_range(0..4) {
                                 0 => Op::Unwind,
                                 1 => Op::OverAdvance { n: rem + 1 + rng.gen_range(0..3) },
-                                2 => Op::ReadClose { bs: { let n = rng.gen_range(0..=rem.min(8)); rand_bytes(rng, n) }, claim: rem + 1 + rng.gen_range(0..3) },
+                                2 => Op::ReadClose { bs: { let n = rng.gen_range(0..=rem.min(8)); rand_bytes(rng, n) }, claim: rem + 1 + rng.gen_range(0..3), rd: Rd::default() },
                                 _ => Op::Touch { ks: rand_chain(rng, rem) },
                             },
                             18 => Op::Close,
+                            19 | 20 => { let (who, bs) = rand_user(rng, rem); Op::User { who, bs, ks: rand_chain(rng, rem), ret: true } }
+                            21 | 22 if manual => Op::Reopen,
                             _ => Op::Write { bs: { let n = rng.gen_range(0..=rem.min(16)); rand_bytes(rng, n) } },
                         })
                     }
@@ -338,10 +516,11 @@ impl Cx {
 
 struct UnwindMarker;
 
-#[derive(Clone, Copy, PartialEq, Debug)]
+#[derive(Clone, PartialEq, Debug)]
 enum Exit {
     Closed(usize), // index of the close event, to be completed by the parent
     EndOfPlan,
+    Reopen(Value), // the BufferRef was dropped; the intermediate is asked for another one
 }
 
 macro_rules! with_chain {
@@ -352,6 +531,38 @@ macro_rules! with_chain {
             1 => with_buffer($buf.cap_at(ks[0]), $f),
             2 => with_buffer($buf.cap_at(ks[0]).cap_at(ks[1]), $f),
             _ => panic!("harness: cap_at chain too long"),
+        }
+    }};
+}
+macro_rules! packer_chain {
+    ($buf:expr, $ks:expr, $f:expr) => {{
+        let ks: &[usize] = $ks;
+        match ks.len() {
+            0 => with_packer($buf, $f),
+            1 => with_packer($buf.cap_at(ks[0]), $f),
+            2 => with_packer($buf.cap_at(ks[0]).cap_at(ks[1]), $f),
+            _ => panic!("harness: cap_at chain too long"),
+        }
+    }};
+}
+/// to_to_buffer_ref() by hand: the intermediate stays in the hands of the harness
+macro_rules! manual_chain {
+    ($buf:expr, $ks:expr, $cx:expr, $act:expr, $depth:expr) => {{
+        let ks: &[usize] = $ks;
+        match ks.len() {
+            0 => run_manual($buf.to_to_buffer_ref(), $cx, $act, $depth),
+            1 => run_manual($buf.cap_at(ks[0]).to_to_buffer_ref(), $cx, $act, $depth),
+            2 => run_manual($buf.cap_at(ks[0]).cap_at(ks[1]).to_to_buffer_ref(), $cx, $act, $depth),
+            _ => panic!("harness: cap_at chain too long"),
+        }
+    }};
+}
+macro_rules! open_via {
+    ($buf:expr, $ks:expr, $via:expr, $cx:expr, $act:expr, $depth:expr) => {{
+        match $via {
+            0 => with_chain!($buf, $ks, |c| run_view(H::B(c), $cx, $act, $depth, false)),
+            1 => manual_chain!($buf, $ks, $cx, $act, $depth),
+            _ => packer_chain!($buf, $ks, |p| run_view(H::P(p), $cx, $act, $depth, false)),
         }
     }};
 }
@@ -366,6 +577,47 @@ macro_rules! touch_chain {
         }
     }};
 }
+macro_rules! read_chain {
+    ($rd:expr, $buf:expr, $ks:expr) => {{
+        let ks: &[usize] = $ks;
+        match ks.len() {
+            0 => $rd.read_buffer($buf),
+            1 => $rd.read_buffer($buf.cap_at(ks[0])),
+            2 => $rd.read_buffer($buf.cap_at(ks[0]).cap_at(ks[1])),
+            _ => panic!("harness: cap_at chain too long"),
+        }
+    }};
+}
+macro_rules! user_chain {
+    ($who:expr, $input:expr, $buf:expr, $ks:expr) => {{
+        let ks: &[usize] = $ks;
+        match ks.len() {
+            0 => user_call($who, $input, $buf),
+            1 => user_call($who, $input, $buf.cap_at(ks[0])),
+            2 => user_call($who, $input, $buf.cap_at(ks[0]).cap_at(ks[1])),
+            _ => panic!("harness: cap_at chain too long"),
+        }
+    }};
+}
+const FEED: u8 = 3;
+/// on owners: `feed` as well
+macro_rules! owner_user_chain {
+    ($who:expr, $input:expr, $buf:expr, $ks:expr) => {{
+        let ks: &[usize] = $ks;
+        if $who == FEED {
+            match ks.len() {
+                0 => feed_call($input, $buf),
+                1 => feed_call($input, $buf.cap_at(ks[0])),
+                _ => panic!("harness: cap_at chain too long"),
+            }
+        } else {
+            user_chain!($who, $input, $buf, ks)
+        }
+    }};
+}
+
+// ------------------------------------------------------------------ readers
+
 /// A reader that stores what fits but reports `claim` bytes.
 struct OverReader<'a> {
     data: &'a [u8],
@@ -378,23 +630,304 @@ impl<'a> std::io::Read for OverReader<'a> {
         Ok(self.claim)
     }
 }
-macro_rules! read_chain {
-    ($rd:expr, $buf:expr, $ks:expr) => {{
-        let ks: &[usize] = $ks;
-        match ks.len() {
-            0 => $rd.read_buffer($buf),
-            1 => $rd.read_buffer($buf.cap_at(ks[0])),
-            2 => $rd.read_buffer($buf.cap_at(ks[0]).cap_at(ks[1])),
-            _ => panic!("harness: cap_at chain too long"),
+/// A reader that hands out at most `j` bytes per call (a short read).
+struct ShortReader<'a> {
+    data: &'a [u8],
+    j: usize,
+}
+impl<'a> std::io::Read for ShortReader<'a> {
+    fn read(&mut self, buf: &mut [u8]) -> std::io::Result<usize> {
+        let n = self.data.len().min(buf.len()).min(self.j);
+        buf[..n].copy_from_slice(&self.data[..n]);
+        self.data = &self.data[n..];
+        Ok(n)
+    }
+}
+unsafe impl<'a> ReadBufferMarker for ShortReader<'a> {}
+/// A reader that stores up to `j` bytes and then fails.
+struct ErrReader<'a> {
+    data: &'a [u8],
+    j: usize,
+}
+impl<'a> std::io::Read for ErrReader<'a> {
+    fn read(&mut self, buf: &mut [u8]) -> std::io::Result<usize> {
+        let n = self.data.len().min(buf.len()).min(self.j);
+        buf[..n].copy_from_slice(&self.data[..n]);
+        Err(std::io::Error::new(std::io::ErrorKind::Other, "reader fails midway"))
+    }
+}
+unsafe impl<'a> ReadBufferMarker for ErrReader<'a> {}
+/// Any of the readers behind one type: a user-written `ReadBufferRef` that forwards to the real
+/// implementation (the blanket impl for `ReadBufferMarker` types, i.e. `read_buffer_ref`).
+struct DynRd<'a>(&'a mut dyn ReadBufferRef);
+impl<'a> std::io::Read for DynRd<'a> {
+    fn read(&mut self, buf: &mut [u8]) -> std::io::Result<usize> {
+        self.0.read(buf)
+    }
+}
+impl<'a> ReadBufferRef for DynRd<'a> {
+    fn read_buffer_ref<'d, 's>(&mut self, buf: BufferRef<'d, 's>) -> std::io::Result<&'d [u8]> {
+        self.0.read_buffer_ref(buf)
+    }
+}
+static FILE_NO: AtomicUsize = AtomicUsize::new(0);
+/// Builds the reader `rd` over the bytes `bs` and hands it to `f`.
+fn with_reader<T>(rd: &Rd, bs: &[u8], f: &mut dyn FnMut(DynRd) -> T) -> T {
+    use std::io::Read;
+    match RD_NAMES[rd.k as usize] {
+        "slice" => {
+            let mut r: &[u8] = bs;
+            f(DynRd(&mut r))
         }
-    }};
+        "mutref" => {
+            let mut inner: &[u8] = bs;
+            let mut r = &mut inner;
+            f(DynRd(&mut r))
+        }
+        "boxed" => {
+            let mut r: Box<&[u8]> = Box::new(bs);
+            f(DynRd(&mut r))
+        }
+        "bufreader" => {
+            let mut r = std::io::BufReader::with_capacity(rd.j, bs);
+            f(DynRd(&mut r))
+        }
+        "file" => {
+            let path = std::env::temp_dir().join(format!("vh-buffer-{}-{}.bin", std::process::id(), FILE_NO.fetch_add(1, Ordering::Relaxed)));
+            std::fs::write(&path, bs).expect("harness: temp file");
+            let mut r = std::fs::File::open(&path).expect("harness: temp file");
+            let t = f(DynRd(&mut r));
+            let _ = std::fs::remove_file(&path);
+            t
+        }
+        "empty" => {
+            let mut r = std::io::empty();
+            f(DynRd(&mut r))
+        }
+        "repeat" => {
+            let mut r = std::io::repeat(rd.j as u8);
+            f(DynRd(&mut r))
+        }
+        "take" => {
+            let mut r = bs.take(rd.j as u64);
+            f(DynRd(&mut r))
+        }
+        "short" => {
+            let mut r = ShortReader { data: bs, j: rd.j };
+            f(DynRd(&mut r))
+        }
+        "chain" => {
+            let mut r = bs.chain(&rd.bs2[..]);
+            f(DynRd(&mut r))
+        }
+        "err" => {
+            let mut r = ErrReader { data: bs, j: rd.j };
+            f(DynRd(&mut r))
+        }
+        other => panic!("harness: reader {}", other),
+    }
+}
+fn read_result(r: std::io::Result<&[u8]>) -> Result<Vec<u8>, ()> {
+    match r {
+        Ok(s) => Ok(s.to_vec()),
+        Err(_) => Err(()),
+    }
+}
+fn read_out(r: Result<Vec<u8>, ()>) -> Out {
+    match r {
+        Ok(d) => Out::ok().data(d),
+        Err(()) => Out { r: "ioerr", ..Default::default() },
+    }
 }
 
-fn run_view<'d, 's>(mut b: BufferRef<'d, 's>, cx: &mut Cx, open_act: Value, depth: usize) -> Exit {
-    cx.current = None;
-    cx.push(open_act, Out::ok().rem(b.remaining()));
+// ------------------------------------------------------------------ call sites inside libtw2
+
+struct NoCb;
+impl libtw2_net::connection::Callback for NoCb {
+    type Error = ();
+    fn secure_random(&mut self, buffer: &mut [u8]) {
+        for b in buffer {
+            *b = 7;
+        }
+    }
+    fn send(&mut self, _: &[u8]) -> Result<(), ()> {
+        Ok(())
+    }
+    fn time(&mut self) -> libtw2_net::Timestamp {
+        libtw2_net::Timestamp::from_secs_since_epoch(0)
+    }
+}
+struct SeeCompression(bool);
+impl libtw2_warn::Warn<libtw2_net::connection::Warning> for SeeCompression {
+    fn warn(&mut self, w: libtw2_net::connection::Warning) {
+        if let libtw2_net::connection::Warning::Read(libtw2_net::protocol::PacketReadError::Compression) = w {
+            self.0 = true;
+        }
+    }
+}
+
+/// The call `who` with its input on `target`: what it reports and the slice it returns.
+fn user_call<'d, B: Buffer<'d>>(who: u8, input: &[u8], target: B) -> (&'static str, Option<Vec<u8>>) {
+    match WHO_NAMES[who as usize] {
+        "huffd" => match libtw2_huffman::decompress_into(input, target) {
+            Ok(s) => ("ok", Some(s.to_vec())),
+            Err(libtw2_huffman::DecompressionError::Capacity(_)) => ("cap", Some(Vec::new())),
+            Err(_) => ("invalid", Some(Vec::new())),
+        },
+        "huffc" => match libtw2_huffman::compress_into(input, target) {
+            Ok(s) => ("ok", Some(s.to_vec())),
+            Err(_) => ("cap", Some(Vec::new())),
+        },
+        "strbytes" => match libtw2_packer::string_to_bytes(target, input) {
+            Ok(s) => ("ok", Some(s.to_vec())),
+            Err(_) => ("cap", Some(Vec::new())),
+        },
+        other => panic!("harness: call site {} on this target", other),
+    }
+}
+/// `Connection::feed(.., packet, target)`: packet and buffer share a lifetime, so only on owners
+fn feed_call<'d, B: Buffer<'d>>(input: &'d [u8], target: B) -> (&'static str, Option<Vec<u8>>) {
+    let mut conn = libtw2_net::Connection::new();
+    let mut warn = SeeCompression(false);
+    let _ = conn.feed(&mut NoCb, &mut warn, input, target);
+    (if warn.0 { "cap" } else { "ok" }, None)
+}
+/// The input of the call `who` that makes it write `payload`, and what the same call writes into an
+/// ample buffer (the bytes the call writes are the codec's business, not the buffer's).
+fn user_reference(who: u8, payload: &[u8]) -> (Vec<u8>, Vec<u8>) {
+    match WHO_NAMES[who as usize] {
+        "huffd" => {
+            let input = libtw2_huffman::compress(payload);
+            let mut ample: Vec<u8> = Vec::with_capacity(input.len() * 8 + 64);
+            let _ = libtw2_huffman::decompress_into(&input, &mut ample);
+            (input, ample)
+        }
+        "huffc" => {
+            let mut ample: Vec<u8> = Vec::with_capacity(payload.len() * 4 + 64);
+            let _ = libtw2_huffman::compress_into(payload, &mut ample);
+            (payload.to_vec(), ample)
+        }
+        "strbytes" => {
+            let s: Vec<u8> = payload[..payload.len().saturating_sub(1)].iter().cloned().filter(|b| *b != 0).collect();
+            let mut ample: Vec<u8> = Vec::with_capacity(s.len() + 64);
+            let _ = libtw2_packer::string_to_bytes(&mut ample, &s);
+            (s, ample)
+        }
+        "feed" => {
+            // payload = what the packet carries (empty: a packet that needs no decompression)
+            let mut packet: Vec<u8>;
+            if payload.is_empty() {
+                packet = vec![0x00, 0x00, 0x00];
+            } else {
+                packet = vec![libtw2_net::protocol::PACKETFLAG_COMPRESSION << 4, 0x00, 0x00];
+                packet.extend_from_slice(&libtw2_huffman::compress(payload));
+            }
+            let mut ample: Vec<u8> = Vec::with_capacity(1 << 16);
+            let _ = libtw2_net::protocol::Packet::decompress_if_needed(&packet, &mut ample);
+            (packet, ample)
+        }
+        other => panic!("harness: call site {}", other),
+    }
+}
+
+/// One Packer call; `bs` = the bytes TLC / the driver expects it to write.
+fn pk_call(p: &mut Packer, op: u8, v: i64, bs: &[u8]) -> bool {
+    match PK_NAMES[op as usize] {
+        "raw" => p.write_raw(bs).is_ok(),
+        "rest" => p.write_rest(bs).is_ok(),
+        "string" => p.write_string(&bs[..bs.len().saturating_sub(1)]).is_ok(),
+        "int" => p.write_int(v as i32).is_ok(),
+        "data" => p.write_data(&bs[bs.len() - (v as usize).min(bs.len())..]).is_ok(),
+        other => panic!("harness: packer op {}", other),
+    }
+}
+fn pk_reference(op: u8, v: i64, bs: &[u8]) -> Vec<u8> {
+    let mut ample: Vec<u8> = Vec::with_capacity(bs.len() + 64);
+    with_packer(&mut ample, |mut p| {
+        pk_call(&mut p, op, v, bs);
+    });
+    ample
+}
+
+// ------------------------------------------------------------------ views
+
+/// What the closure got: a BufferRef (with_buffer, BufferRef::new, to_buffer_ref) or a Packer (with_packer).
+enum H<'d, 's> {
+    B(BufferRef<'d, 's>),
+    P(Packer<'d, 's>),
+}
+impl<'d, 's> H<'d, 's> {
+    fn remaining(&mut self) -> usize {
+        match self {
+            H::B(b) => b.remaining(),
+            // a Packer does not tell: a nested view of it does
+            H::P(p) => with_buffer(p, |c| c.remaining()),
+        }
+    }
+    fn buf(&mut self, what: &Value) -> &mut BufferRef<'d, 's> {
+        match self {
+            H::B(b) => b,
+            H::P(_) => panic!("harness: {} on a Packer", what),
+        }
+    }
+}
+/// `$t` is bound to `&mut BufferRef` or `&mut Packer` (both are `Buffer`s)
+macro_rules! target {
+    ($h:expr, $t:ident => $e:expr) => {
+        match &mut $h {
+            H::B($t) => $e,
+            H::P($t) => $e,
+        }
+    };
+}
+
+struct OnceRef<'a, I>(&'a mut I);
+impl<'a, I> OnceRef<'a, I> {
+    fn go<'d>(self) -> BufferRef<'d, 'a>
+    where
+        I: ToBufferRef<'d>,
+    {
+        self.0.to_buffer_ref()
+    }
+}
+/// A view made by hand: `inter.to_buffer_ref()` as often as the plan asks for it.
+fn run_manual<'d, I: ToBufferRef<'d>>(mut inter: I, cx: &mut Cx, act: Value, depth: usize) -> Exit {
+    let mut act = act;
+    let mut first = true;
     loop {
-        let op = match cx.src.next(Some((b.remaining(), depth)), 0) {
+        let r = {
+            let once = OnceRef(&mut inter);
+            catch_unwind(AssertUnwindSafe(move || once.go()))
+        };
+        match r {
+            Ok(b) => match run_view(H::B(b), cx, act, depth, true) {
+                Exit::Reopen(a) => {
+                    act = a;
+                    first = false;
+                    cx.current = Some(act.clone());
+                }
+                e => return e,
+            },
+            Err(p) => {
+                if first {
+                    resume_unwind(p); // not a second call: a panic of the library
+                }
+                // refused: the intermediate is dropped (by the unwinding, here: by returning) and writes its count back
+                cx.current = None;
+                let i = cx.push(act, Out { r: "refused", ..Default::default() }.data(Vec::new()));
+                return Exit::Closed(i);
+            }
+        }
+    }
+}
+
+fn run_view<'d, 's>(mut h: H<'d, 's>, cx: &mut Cx, open_act: Value, depth: usize, manual: bool) -> Exit {
+    cx.current = None;
+    let r0 = h.remaining();
+    cx.push(open_act, Out::ok().rem(r0));
+    loop {
+        let rem_now = h.remaining();
+        let op = match cx.src.next(Some((rem_now, depth, matches!(h, H::P(_)), manual)), 0) {
             Some(op) => op,
             None => return Exit::EndOfPlan,
         };
@@ -402,10 +935,11 @@ fn run_view<'d, 's>(mut b: BufferRef<'d, 's>, cx: &mut Cx, open_act: Value, dept
         cx.current = Some(act.clone());
         match op {
             Op::Write { bs } => {
-                let r = b.write(&bs);
-                cx.push(act, Out { r: if r.is_ok() { "ok" } else { "cap" }, ..Default::default() }.rem(b.remaining()));
+                let r = h.buf(&act).write(&bs);
+                cx.push(act, Out { r: if r.is_ok() { "ok" } else { "cap" }, ..Default::default() }.rem(h.remaining()));
             }
             Op::Extend { bs, it } => {
+                let b = h.buf(&act);
                 let r = match it {
                     0 => b.extend(bs.iter().cloned()),
                     1 => {
@@ -419,41 +953,64 @@ fn run_view<'d, 's>(mut b: BufferRef<'d, 's>, cx: &mut Cx, open_act: Value, dept
                     2 => b.extend(Hinted { inner: bs.iter(), claim: bs.len().saturating_sub(1) }),
                     _ => b.extend(Hinted { inner: bs.iter(), claim: bs.len() + 1 }),
                 };
-                cx.push(act, Out { r: if r.is_ok() { "ok" } else { "cap" }, ..Default::default() }.rem(b.remaining()));
+                cx.push(act, Out { r: if r.is_ok() { "ok" } else { "cap" }, ..Default::default() }.rem(h.remaining()));
+            }
+            Op::Pk { op, v, bs } => {
+                // the bytes this call writes: what it writes into an ample buffer
+                let reference = pk_reference(op, v, &bs);
+                let act = if cx.lite { act } else { act_of(&Op::Pk { op, v, bs: reference.clone() }) };
+                let ok = match &mut h {
+                    H::P(p) => pk_call(p, op, v, &bs),
+                    H::B(_) => panic!("harness: packer op on a BufferRef"),
+                };
+                cx.push(act, Out { r: if ok { "ok" } else { "cap" }, ..Default::default() }.rem(h.remaining()));
             }
             Op::Advance { bs } => {
+                let b = h.buf(&act);
                 unsafe {
                     b.uninitialized_mut()[..bs.len()].copy_from_slice(&bs);
                     b.advance(bs.len());
                 }
-                cx.push(act, Out::ok().rem(b.remaining()));
+                cx.push(act, Out::ok().rem(h.remaining()));
             }
             Op::Scribble { bs } => {
+                let b = h.buf(&act);
                 unsafe {
                     b.uninitialized_mut()[..bs.len()].copy_from_slice(&bs);
                 }
-                cx.push(act, Out::ok().rem(b.remaining()));
+                cx.push(act, Out::ok().rem(h.remaining()));
             }
-            Op::Open { ks } => {
-                let e = with_chain!(&mut b, &ks, |c| run_view(c, cx, act.clone(), depth + 1));
+            Op::Open { ks, via } => {
+                let e = target!(h, t => open_via!(t, &ks, via, cx, act.clone(), depth + 1));
                 match e {
                     Exit::Closed(i) => {
-                        cx.patch_rem(i, b.remaining());
+                        cx.patch_rem(i, h.remaining());
                     }
                     Exit::EndOfPlan => return Exit::EndOfPlan,
+                    Exit::Reopen(_) => panic!("harness: reopen escaped"),
                 }
             }
-            Op::Read { bs, ks } => {
-                let mut rd: &[u8] = &bs;
-                let data: Vec<u8> = match read_chain!(rd, &mut b, &ks) {
-                    Ok(s) => s.to_vec(),
-                    Err(e) => panic!("harness: read_buffer io error {:?}", e),
-                };
-                cx.push(act, Out::ok().data(data).rem(b.remaining()));
+            Op::Read { bs, ks, rd } => {
+                let r = with_reader(&rd, &bs, &mut |mut r| target!(h, t => read_result(read_chain!(r, t, &ks))));
+                cx.push(act, read_out(r).rem(h.remaining()));
             }
-            Op::ReadClose { bs, claim } if claim > 0 => {
+            Op::User { who, bs, ks, ret } => {
+                let (input, reference) = user_reference(who, &bs);
+                let act = if cx.lite { act } else { act_of(&Op::User { who, bs: reference, ks: ks.clone(), ret }) };
+                let (r, data) = target!(h, t => user_chain!(who, &input, t, &ks));
+                let mut o = Out { r, ..Default::default() }.rem(h.remaining());
+                if ret {
+                    o.data = Some(data.unwrap_or_default());
+                }
+                cx.push(act, o);
+            }
+            Op::ReadClose { bs, claim, .. } if claim > 0 => {
                 // a reader that reports more than what is left: read_buffer_ref must refuse (it asserts);
                 // the refusal unwinds through every open view
+                let b = match h {
+                    H::B(b) => b,
+                    H::P(_) => panic!("harness: readclose on a Packer"),
+                };
                 let i = cx.push(act, Out { r: "refused", ..Default::default() });
                 cx.unwinding = Some(i);
                 cx.refusal_expected = true;
@@ -470,26 +1027,38 @@ fn run_view<'d, 's>(mut b: BufferRef<'d, 's>, cx: &mut Cx, open_act: Value, dept
                 cx.current = None;
                 return Exit::Closed(i);
             }
-            Op::ReadClose { bs, .. } => {
+            Op::ReadClose { bs, rd, .. } => {
                 // the view itself (it may already hold bytes) goes to the reader and is consumed
-                let mut rd: &[u8] = &bs;
-                let s = match rd.read_buffer_ref(b) {
-                    Ok(s) => s.to_vec(),
-                    Err(e) => panic!("harness: read_buffer_ref io error {:?}", e),
+                let b = match h {
+                    H::B(b) => b,
+                    H::P(_) => panic!("harness: readclose on a Packer"),
                 };
-                cx.push(act, Out::ok().data(s));
+                let mut slot = Some(b);
+                let r = with_reader(&rd, &bs, &mut |mut r| read_result(r.read_buffer_ref(slot.take().expect("harness: reader used twice"))));
+                let o = match r {
+                    Ok(d) => Out::ok().data(d),
+                    Err(()) => Out { r: "ioerr", ..Default::default() }.data(Vec::new()),
+                };
+                cx.push(act, o);
                 cx.current = None;
                 return Exit::Closed(cx.events.len() - 1);
             }
             Op::OverAdvance { n } => {
                 // a count above what is left: advance must refuse (it asserts); the view is used further
+                let b = h.buf(&act);
                 let r = catch_unwind(AssertUnwindSafe(|| unsafe { b.advance(n) }));
                 let res = if r.is_err() { "refused" } else { "ok" };
-                cx.push(act, Out { r: res, ..Default::default() }.rem(b.remaining()));
+                cx.push(act, Out { r: res, ..Default::default() }.rem(h.remaining()));
             }
             Op::Touch { ks } => {
-                touch_chain!((&mut b), &ks);
-                cx.push(act, Out::ok().rem(b.remaining()));
+                target!(h, t => touch_chain!(t, &ks));
+                cx.push(act, Out::ok().rem(h.remaining()));
+            }
+            Op::Reopen => {
+                if !manual {
+                    panic!("harness: reopen on a view that was not made by hand");
+                }
+                return Exit::Reopen(act);
             }
             Op::Close => {
                 cx.push(act, Out::ok().data(Vec::new()));
@@ -497,7 +1066,10 @@ fn run_view<'d, 's>(mut b: BufferRef<'d, 's>, cx: &mut Cx, open_act: Value, dept
                 return Exit::Closed(cx.events.len() - 1);
             }
             Op::CloseInit => {
-                let s = b.initialized().to_vec();
+                let s = match h {
+                    H::B(b) => b.initialized().to_vec(),
+                    H::P(p) => p.written().to_vec(),
+                };
                 cx.push(act, Out::ok().data(s));
                 cx.current = None;
                 return Exit::Closed(cx.events.len() - 1);
@@ -508,7 +1080,7 @@ fn run_view<'d, 's>(mut b: BufferRef<'d, 's>, cx: &mut Cx, open_act: Value, dept
                 cx.current = None;
                 resume_unwind(Box::new(UnwindMarker));
             }
-            Op::Setup { .. } | Op::Final => panic!("harness: {:?} inside a view", act),
+            Op::Setup { .. } | Op::Final | Op::RawDirty { .. } | Op::Grow { .. } => panic!("harness: {:?} inside a view", act),
         }
         cx.current = None;
     }
@@ -516,8 +1088,16 @@ fn run_view<'d, 's>(mut b: BufferRef<'d, 's>, cx: &mut Cx, open_act: Value, dept
 
 trait Owner {
     fn touch(&mut self, ks: &[usize]);
-    fn open(&mut self, ks: &[usize], cx: &mut Cx, act: Value) -> Exit;
-    fn read(&mut self, bs: &[u8], ks: &[usize]) -> Vec<u8>;
+    fn open(&mut self, ks: &[usize], via: u8, cx: &mut Cx, act: Value) -> Exit;
+    fn read(&mut self, rd: &Rd, bs: &[u8], ks: &[usize]) -> Result<Vec<u8>, ()>;
+    fn user(&mut self, who: u8, input: &[u8], ks: &[usize]) -> (&'static str, Option<Vec<u8>>);
+    fn grow(&mut self, _cap: usize, _tail: &[u8]) {
+        panic!("harness: grow on a store that is not a Vec");
+    }
+    /// BufferRef::new with a non-zero count; None: refused
+    fn rawdirty(&mut self, _n: usize, _cx: &mut Cx, _act: Value) -> Option<Exit> {
+        panic!("harness: rawdirty on a store that is not raw");
+    }
     fn spare(&self) -> usize;
     fn olen(&self) -> usize;
     fn own(&self) -> Vec<u8>;
@@ -532,12 +1112,28 @@ impl Owner for VecOwner {
     fn touch(&mut self, ks: &[usize]) {
         touch_chain!((&mut self.v), ks);
     }
-    fn open(&mut self, ks: &[usize], cx: &mut Cx, act: Value) -> Exit {
-        with_chain!(&mut self.v, ks, |b| run_view(b, cx, act, 1))
+    fn open(&mut self, ks: &[usize], via: u8, cx: &mut Cx, act: Value) -> Exit {
+        open_via!((&mut self.v), ks, via, cx, act, 1)
     }
-    fn read(&mut self, bs: &[u8], ks: &[usize]) -> Vec<u8> {
-        let mut rd: &[u8] = bs;
-        read_chain!(rd, &mut self.v, ks).expect("harness: io").to_vec()
+    fn read(&mut self, rd: &Rd, bs: &[u8], ks: &[usize]) -> Result<Vec<u8>, ()> {
+        with_reader(rd, bs, &mut |mut r| read_result(read_chain!(r, (&mut self.v), ks)))
+    }
+    fn user(&mut self, who: u8, input: &[u8], ks: &[usize]) -> (&'static str, Option<Vec<u8>>) {
+        owner_user_chain!(who, input, (&mut self.v), ks)
+    }
+    fn grow(&mut self, cap: usize, tail: &[u8]) {
+        let len = self.v.len();
+        self.v.reserve_exact(cap - len);
+        assert!(self.v.capacity() == cap, "harness: Vec capacity {} != {}", self.v.capacity(), cap);
+        assert!(tail.len() == cap - len, "harness: bad grow");
+        // the spare memory is uninitialized for the harness as well: fill it with what the specification says
+        unsafe {
+            let p = self.v.as_mut_ptr().add(len);
+            for (i, x) in tail.iter().enumerate() {
+                p.add(i).write(*x);
+            }
+        }
+        self.cap = cap;
     }
     fn spare(&self) -> usize {
         self.cap - self.v.len()
@@ -561,12 +1157,14 @@ impl<A: arrayvec::Array<Item = u8>> Owner for ArrOwner<A> {
     fn touch(&mut self, ks: &[usize]) {
         touch_chain!((&mut self.v), ks);
     }
-    fn open(&mut self, ks: &[usize], cx: &mut Cx, act: Value) -> Exit {
-        with_chain!(&mut self.v, ks, |b| run_view(b, cx, act, 1))
+    fn open(&mut self, ks: &[usize], via: u8, cx: &mut Cx, act: Value) -> Exit {
+        open_via!((&mut self.v), ks, via, cx, act, 1)
     }
-    fn read(&mut self, bs: &[u8], ks: &[usize]) -> Vec<u8> {
-        let mut rd: &[u8] = bs;
-        read_chain!(rd, &mut self.v, ks).expect("harness: io").to_vec()
+    fn read(&mut self, rd: &Rd, bs: &[u8], ks: &[usize]) -> Result<Vec<u8>, ()> {
+        with_reader(rd, bs, &mut |mut r| read_result(read_chain!(r, (&mut self.v), ks)))
+    }
+    fn user(&mut self, who: u8, input: &[u8], ks: &[usize]) -> (&'static str, Option<Vec<u8>>) {
+        owner_user_chain!(who, input, (&mut self.v), ks)
     }
     fn spare(&self) -> usize {
         self.v.capacity() - self.v.len()
@@ -592,14 +1190,20 @@ impl Owner for SliceOwner {
         let s: &mut [u8] = &mut self.arr[self.len0..];
         touch_chain!(s, ks);
     }
-    fn open(&mut self, ks: &[usize], cx: &mut Cx, act: Value) -> Exit {
+    fn open(&mut self, ks: &[usize], via: u8, cx: &mut Cx, act: Value) -> Exit {
         let s: &mut [u8] = &mut self.arr[self.len0..];
-        with_chain!(s, ks, |b| run_view(b, cx, act, 1))
+        open_via!(s, ks, via, cx, act, 1)
     }
-    fn read(&mut self, bs: &[u8], ks: &[usize]) -> Vec<u8> {
-        let mut rd: &[u8] = bs;
+    fn read(&mut self, rd: &Rd, bs: &[u8], ks: &[usize]) -> Result<Vec<u8>, ()> {
+        let len0 = self.len0;
+        with_reader(rd, bs, &mut |mut r| {
+            let s: &mut [u8] = &mut self.arr[len0..];
+            read_result(read_chain!(r, s, ks))
+        })
+    }
+    fn user(&mut self, who: u8, input: &[u8], ks: &[usize]) -> (&'static str, Option<Vec<u8>>) {
         let s: &mut [u8] = &mut self.arr[self.len0..];
-        read_chain!(rd, s, ks).expect("harness: io").to_vec()
+        owner_user_chain!(who, input, s, ks)
     }
     fn spare(&self) -> usize {
         self.arr.len() - self.len0
@@ -609,6 +1213,63 @@ impl Owner for SliceOwner {
     }
     fn own(&self) -> Vec<u8> {
         Vec::new()
+    }
+    fn mem(&self) -> Vec<u8> {
+        self.arr.clone()
+    }
+}
+
+/// The caller's own slice and counter, turned into a view with `BufferRef::new`.
+struct RawOwner {
+    arr: Vec<u8>,
+    len0: usize,
+    count: usize,
+}
+impl Owner for RawOwner {
+    fn touch(&mut self, _: &[usize]) {
+        panic!("harness: no intermediate on the raw store");
+    }
+    fn open(&mut self, ks: &[usize], via: u8, cx: &mut Cx, act: Value) -> Exit {
+        assert!(ks.is_empty() && via == 0, "harness: raw store: BufferRef::new only");
+        self.count = 0;
+        let b = BufferRef::new(&mut self.arr[self.len0..], &mut self.count);
+        run_view(H::B(b), cx, act, 1, false)
+    }
+    fn read(&mut self, rd: &Rd, bs: &[u8], ks: &[usize]) -> Result<Vec<u8>, ()> {
+        assert!(ks.is_empty(), "harness: raw store: no cap_at");
+        let len0 = self.len0;
+        self.count = 0;
+        let (arr, count) = (&mut self.arr, &mut self.count);
+        with_reader(rd, bs, &mut |mut r| read_result(r.read_buffer_ref(BufferRef::new(&mut arr[len0..], &mut *count))))
+    }
+    fn user(&mut self, _: u8, _: &[u8], _: &[usize]) -> (&'static str, Option<Vec<u8>>) {
+        panic!("harness: the raw store is not a Buffer");
+    }
+    fn rawdirty(&mut self, n: usize, cx: &mut Cx, act: Value) -> Option<Exit> {
+        let before = self.count;
+        self.count = n;
+        let r = {
+            // raw pointers: the view lives on when the call is not refused
+            let ap: *mut [u8] = &mut self.arr[self.len0..];
+            let cp: *mut usize = &mut self.count;
+            catch_unwind(AssertUnwindSafe(move || unsafe { BufferRef::new(&mut *ap, &mut *cp) }))
+        };
+        match r {
+            Ok(b) => Some(run_view(H::B(b), cx, act, 1, false)),
+            Err(_) => {
+                self.count = before;
+                None
+            }
+        }
+    }
+    fn spare(&self) -> usize {
+        self.arr.len() - self.len0
+    }
+    fn olen(&self) -> usize {
+        self.count
+    }
+    fn own(&self) -> Vec<u8> {
+        self.arr[self.len0..self.len0 + self.count.min(self.arr.len() - self.len0)].to_vec()
     }
     fn mem(&self) -> Vec<u8> {
         self.arr.clone()
@@ -640,33 +1301,37 @@ impl SliceRefOwner {
         SliceRefOwner { base, cap, cur, raw }
     }
 }
+/// the narrowing in Drop must be seen even when the call unwinds
+struct SaveCur<'a>(*mut &'a mut [u8], *mut *mut [u8]);
+impl<'a> Drop for SaveCur<'a> {
+    fn drop(&mut self) {
+        unsafe { *self.1 = &mut **self.0 as *mut [u8] }
+    }
+}
 impl Owner for SliceRefOwner {
     fn touch(&mut self, ks: &[usize]) {
         let mut s: &mut [u8] = unsafe { &mut *self.cur };
         let p: *mut &mut [u8] = &mut s;
+        let _save = SaveCur(p, &mut self.cur);
         touch_chain!((unsafe { &mut *p }), ks);
-        self.cur = unsafe { &mut **p as *mut [u8] };
     }
-    fn open(&mut self, ks: &[usize], cx: &mut Cx, act: Value) -> Exit {
+    fn open(&mut self, ks: &[usize], via: u8, cx: &mut Cx, act: Value) -> Exit {
         let mut s: &mut [u8] = unsafe { &mut *self.cur };
         let p: *mut &mut [u8] = &mut s;
-        // the narrowing in Drop must be seen even when the closure unwinds
-        struct Save<'a>(*mut &'a mut [u8], *mut *mut [u8]);
-        impl<'a> Drop for Save<'a> {
-            fn drop(&mut self) {
-                unsafe { *self.1 = &mut **self.0 as *mut [u8] }
-            }
-        }
-        let _save = Save(p, &mut self.cur);
-        with_chain!(unsafe { &mut *p }, ks, |b| run_view(b, cx, act, 1))
+        let _save = SaveCur(p, &mut self.cur);
+        open_via!((unsafe { &mut *p }), ks, via, cx, act, 1)
     }
-    fn read(&mut self, bs: &[u8], ks: &[usize]) -> Vec<u8> {
-        let mut rd: &[u8] = bs;
+    fn read(&mut self, rd: &Rd, bs: &[u8], ks: &[usize]) -> Result<Vec<u8>, ()> {
         let mut s: &mut [u8] = unsafe { &mut *self.cur };
         let p: *mut &mut [u8] = &mut s;
-        let r = read_chain!(rd, unsafe { &mut *p }, ks).expect("harness: io").to_vec();
-        self.cur = unsafe { &mut **p as *mut [u8] };
-        r
+        let _save = SaveCur(p, &mut self.cur);
+        with_reader(rd, bs, &mut |mut r| read_result(read_chain!(r, (unsafe { &mut *p }), ks)))
+    }
+    fn user(&mut self, who: u8, input: &[u8], ks: &[usize]) -> (&'static str, Option<Vec<u8>>) {
+        let mut s: &mut [u8] = unsafe { &mut *self.cur };
+        let p: *mut &mut [u8] = &mut s;
+        let _save = SaveCur(p, &mut self.cur);
+        owner_user_chain!(who, input, (unsafe { &mut *p }), ks)
     }
     fn spare(&self) -> usize {
         unsafe { (&*self.cur).len() }
@@ -705,6 +1370,9 @@ fn panic_text(p: &Box<dyn std::any::Any + Send>) -> String {
         "panic".to_string()
     }
 }
+fn panic_out(p: &Box<dyn std::any::Any + Send>) -> Out {
+    Out { r: "panic", msg: Some(panic_text(p)), loc: Some(last_panic_location()), ..Default::default() }
+}
 
 /// Top-level loop of one run (after set-up). Returns false when the run ended in a panic
 /// of the library.
@@ -714,17 +1382,31 @@ fn top_loop(cx: &mut Cx, owner: &mut dyn Owner) -> bool {
             Some(op) => op,
             None => return true,
         };
+        let op = match op {
+            // the random driver does not know the length: new capacity = length + new spare memory
+            Op::Grow { cap, tail } if cap == usize::MAX => Op::Grow { cap: owner.olen() + tail.len(), tail },
+            o => o,
+        };
         let act = cx.act(&op);
         match op {
-            Op::Open { ks } => {
+            Op::Open { .. } | Op::RawDirty { .. } => {
                 cx.current = Some(act.clone());
                 cx.unwinding = None;
-                let r = catch_unwind(AssertUnwindSafe(|| owner.open(&ks, cx, act.clone())));
+                let r = catch_unwind(AssertUnwindSafe(|| match &op {
+                    Op::Open { ks, via } => Some(owner.open(ks, *via, cx, act.clone())),
+                    Op::RawDirty { n } => owner.rawdirty(*n, cx, act.clone()),
+                    _ => unreachable!(),
+                }));
                 match r {
-                    Ok(Exit::Closed(i)) => {
+                    Ok(None) => {
+                        cx.current = None;
+                        cx.push(act, Out { r: "refused", ..Default::default() });
+                    }
+                    Ok(Some(Exit::Closed(i))) => {
                         cx.patch_owner(i, owner.olen(), owner.own());
                     }
-                    Ok(Exit::EndOfPlan) => return true,
+                    Ok(Some(Exit::EndOfPlan)) => return true,
+                    Ok(Some(Exit::Reopen(_))) => panic!("harness: reopen escaped"),
                     Err(p) => {
                         if p.downcast_ref::<UnwindMarker>().is_some() || cx.refusal_expected {
                             cx.refusal_expected = false;
@@ -732,22 +1414,43 @@ fn top_loop(cx: &mut Cx, owner: &mut dyn Owner) -> bool {
                             cx.patch_owner(i, owner.olen(), owner.own());
                         } else {
                             let a = cx.current.take().unwrap_or(act);
-                            cx.push(a, Out { r: "panic", msg: Some(panic_text(&p)), loc: Some(last_panic_location()), ..Default::default() });
+                            cx.push(a, panic_out(&p));
                             return false;
                         }
                     }
                 }
             }
-            Op::Read { bs, ks } => {
+            Op::Read { bs, ks, rd } => {
                 cx.current = Some(act.clone());
-                let r = catch_unwind(AssertUnwindSafe(|| owner.read(&bs, &ks)));
+                let r = catch_unwind(AssertUnwindSafe(|| owner.read(&rd, &bs, &ks)));
                 match r {
-                    Ok(data) => {
-                        let o = Out { r: "ok", data: Some(data), olen: Some(owner.olen()), own: Some(owner.own()), ..Default::default() };
+                    Ok(r) => {
+                        let mut o = read_out(r);
+                        o.olen = Some(owner.olen());
+                        o.own = Some(owner.own());
                         cx.push(act, o);
                     }
                     Err(p) => {
-                        cx.push(act, Out { r: "panic", msg: Some(panic_text(&p)), loc: Some(last_panic_location()), ..Default::default() });
+                        cx.push(act, panic_out(&p));
+                        return false;
+                    }
+                }
+            }
+            Op::User { who, bs, ks, ret } => {
+                cx.current = Some(act.clone());
+                let (input, reference) = user_reference(who, &bs);
+                let act = if cx.lite { act } else { act_of(&Op::User { who, bs: reference, ks: ks.clone(), ret }) };
+                let r = catch_unwind(AssertUnwindSafe(|| owner.user(who, &input, &ks)));
+                match r {
+                    Ok((r, data)) => {
+                        let mut o = Out { r, olen: Some(owner.olen()), own: Some(owner.own()), ..Default::default() };
+                        if ret {
+                            o.data = Some(data.unwrap_or_default());
+                        }
+                        cx.push(act, o);
+                    }
+                    Err(p) => {
+                        cx.push(act, panic_out(&p));
                         return false;
                     }
                 }
@@ -760,10 +1463,15 @@ fn top_loop(cx: &mut Cx, owner: &mut dyn Owner) -> bool {
                         cx.push(act, o);
                     }
                     Err(p) => {
-                        cx.push(act, Out { r: "panic", msg: Some(panic_text(&p)), loc: Some(last_panic_location()), ..Default::default() });
+                        cx.push(act, panic_out(&p));
                         return false;
                     }
                 }
+            }
+            Op::Grow { cap, tail } => {
+                owner.grow(cap, &tail);
+                let o = Out { r: "ok", olen: Some(owner.olen()), own: Some(owner.own()), ..Default::default() };
+                cx.push(act, o);
             }
             Op::Final => {
                 cx.push(act, Out { r: "ok", mem: Some(owner.mem()), ..Default::default() });
@@ -818,6 +1526,9 @@ fn exec_run(cx: &mut Cx) -> bool {
         }
         "sliceref" => {
             top_loop(cx, &mut SliceRefOwner::new(&mem0, len0));
+        }
+        "raw" => {
+            top_loop(cx, &mut RawOwner { arr: mem0.clone(), len0, count: 0 });
         }
         other => panic!("harness: unknown kind {}", other),
     }
@@ -1003,6 +1714,16 @@ impl<'g> Walk<'g> {
         let mut drifted = false;
         for (i, (s, j)) in full.iter().enumerate() {
             let want = &g.edges[*s][*j];
+            // a call site inside libtw2 that writes other bytes than TLC expects: the codec differs, not the buffer
+            if let Some(e) = events.get(i) {
+                let a = want.act["a"].as_str().unwrap_or("");
+                if (a == "user" || a == "pk") && e.0["bs"] != want.act["bs"] {
+                    self.drift_count += 1;
+                    let key = format!("codec:{}:writes other bytes than the specification's codec", want.act.get("who").or(want.act.get("op")).and_then(|x| x.as_str()).unwrap_or(""));
+                    *self.drift_keys.entry(key).or_insert(0) += 1;
+                    return;
+                }
+            }
             let obs = match events.get(i) {
                 Some(e) => &e.1,
                 None => {
@@ -1016,7 +1737,7 @@ impl<'g> Walk<'g> {
                 debug_assert!(drifted);
                 return; // plan no longer applicable after a drift
             }
-            match cands.iter().find(|e| out_matches(&e.out, obs)) {
+            match cands.iter().find(|e| e.det && out_matches(&e.out, obs)).or_else(|| cands.iter().find(|e| out_matches(&e.out, obs))) {
                 Some(e) => {
                     if !e.det {
                         drifted = true;
@@ -1156,7 +1877,16 @@ fn cmd_graph(args: &[String]) {
         }
     }
     let idle = (0..g.edges.len()).find(|i| g.phase[*i] == 0);
-    let mut summary = json!({"states": g.edges.len(), "edges": nedges, "tlc_tail": tlc_tail});
+    let mut actions: Vec<String> = Vec::new();
+    for es in &g.edges {
+        for e in es {
+            let a = e.act["a"].as_str().unwrap_or("").to_string();
+            if !actions.contains(&a) {
+                actions.push(a);
+            }
+        }
+    }
+    let mut summary = json!({"states": g.edges.len(), "edges": nedges, "tlc_tail": tlc_tail, "actions": actions});
     if let Some(idle) = idle {
         let covered: Vec<Vec<AtomicBool>> = g.edges.iter().map(|e| e.iter().map(|_| AtomicBool::new(false)).collect()).collect();
         let det_edges: u64 = g.edges.iter().map(|e| e.iter().filter(|x| x.det).count() as u64).sum();
@@ -1379,9 +2109,12 @@ fn cmd_drive(args: &[String]) {
     let runs: usize = args[1].parse().unwrap();
     let maxcap: usize = args[2].parse().unwrap();
     let ops: usize = args[3].parse().unwrap();
+    let files = args.iter().any(|a| a == "--files");
+    let feed = args.iter().any(|a| a == "--feed");
     for r in 0..runs {
         let rng = StdRng::seed_from_u64(seed.wrapping_mul(1_000_003).wrapping_add(r as u64));
-        let mut cx = Cx::new(Source::Random { rng, cfg: RandCfg { maxcap, ops, maxdepth: 3 }, left: ops, started: false }, false);
+        let cfg = RandCfg { maxcap, ops, maxdepth: 3, files, feed };
+        let mut cx = Cx::new(Source::Random { rng, cfg, left: ops, started: false, kind: String::new() }, false);
         exec_run(&mut cx);
         print_events(&cx.events);
     }
@@ -1389,8 +2122,10 @@ fn cmd_drive(args: &[String]) {
 
 /// Compact plans for the Miri run (no JSON inside the interpreter): one plan per line, operations
 /// separated by ';', numbers by blanks:
-///   S <kind> <cap> <len0> <mem0...> ; O <ks...> ; W <bs...> ; E <iterator kind 0..3> <bs...> ; A <bs...> ; X <bs...> ;
-///   R <n> <bs (n bytes)...> <ks...> ; Q <claim> <bs...> ; V <n> ; T <ks...> ; C ; I ; U ; F
+///   S <kind> <cap> <len0> <mem0...> ; O <via 0..2> <ks...> ; W <bs...> ; E <iterator kind 0..3> <bs...> ; A <bs...> ; X <bs...> ;
+///   P <packer op 0..4> <v> <bs...> ; R <reader> <n> <bs (n bytes)...> <ks...> ; Q <claim> <reader> <bs...> ;
+///   Y <call site 0..3> <ret 0/1> <n> <bs (n bytes)...> <ks...> ; G <cap> <tail...> ; D <n> ; N ; V <n> ; T <ks...> ; C ; I ; U ; F
+///   with <reader> = <kind 0..10> <j> <n2> <bs2 (n2 bytes)...>
 fn parse_compact(line: &str) -> Vec<Op> {
     let mut ops = Vec::new();
     for part in line.split(';') {
@@ -1399,28 +2134,46 @@ fn parse_compact(line: &str) -> Vec<Op> {
             Some(c) => c,
             None => continue,
         };
-        let nums: Vec<usize> = if code == "S" {
+        let inums: Vec<i64> = if code == "S" {
             Vec::new()
         } else {
             it.clone().map(|x| x.parse().expect("number")).collect()
         };
+        let nums: Vec<usize> = inums.iter().map(|x| *x as usize).collect();
         let bytes = |v: &[usize]| -> Vec<u8> { v.iter().map(|x| *x as u8).collect() };
+        // reader: k j nbs2 bs2...  -> (Rd, rest)
+        let reader = |v: &[usize]| -> (Rd, Vec<usize>) {
+            let n2 = v[2];
+            (Rd { k: v[0] as u8, j: v[1], bs2: bytes(&v[3..3 + n2]) }, v[3 + n2..].to_vec())
+        };
         ops.push(match code {
             "S" => {
                 let kind = it.next().expect("kind").to_string();
                 let v: Vec<usize> = it.map(|x| x.parse().expect("number")).collect();
                 Op::Setup { kind, cap: v[0], len0: v[1], mem0: bytes(&v[2..]) }
             }
-            "O" => Op::Open { ks: nums },
+            "O" => Op::Open { via: nums[0] as u8, ks: nums[1..].to_vec() },
             "W" => Op::Write { bs: bytes(&nums) },
             "E" => Op::Extend { bs: bytes(&nums[1..]), it: nums[0] as u8 },
+            "P" => Op::Pk { op: nums[0] as u8, v: inums[1], bs: bytes(&nums[2..]) },
             "A" => Op::Advance { bs: bytes(&nums) },
             "X" => Op::Scribble { bs: bytes(&nums) },
             "R" => {
-                let n = nums[0];
-                Op::Read { bs: bytes(&nums[1..1 + n]), ks: nums[1 + n..].to_vec() }
+                let (rd, rest) = reader(&nums);
+                let n = rest[0];
+                Op::Read { bs: bytes(&rest[1..1 + n]), ks: rest[1 + n..].to_vec(), rd }
             }
-            "Q" => Op::ReadClose { bs: bytes(&nums[1..]), claim: nums[0] },
+            "Q" => {
+                let (rd, rest) = reader(&nums[1..]);
+                Op::ReadClose { bs: bytes(&rest), claim: nums[0], rd }
+            }
+            "Y" => {
+                let n = nums[2];
+                Op::User { who: nums[0] as u8, ret: nums[1] != 0, bs: bytes(&nums[3..3 + n]), ks: nums[3 + n..].to_vec() }
+            }
+            "G" => Op::Grow { cap: nums[0], tail: bytes(&nums[1..]) },
+            "D" => Op::RawDirty { n: nums[0] },
+            "N" => Op::Reopen,
             "V" => Op::OverAdvance { n: nums[0] },
             "T" => Op::Touch { ks: nums },
             "C" => Op::Close,
